@@ -244,8 +244,17 @@ def run(repo: Repo, tier: str) -> Report:
         if s.mode == "map_blocks":
             r_token(rep, repo, m, s, s.where())
     src = {norm_stmt(st): st for st in ast.walk(m) if isinstance(st, ast.Assign)}
-    rep.ob("R-FORMULA", AFILE, "ZonalStatistics.mean", "NaN pixels are replaced by nodata before the kernel",
-           "xx = xx.where(xx.notnull(), xx.nodata)" in src, "", "xx = xx.where(xx.notnull(), xx.nodata)")
+    from ..rules import reaches_unconditionally
+    sub = src.get("xx = xx.where(xx.notnull(), xx.nodata)")
+    gap = reaches_unconditionally(m, sub, [s_.call for s_ in sites]) if sub is not None else "statement not found"
+    rep.ob("R-FORMULA", AFILE, "ZonalStatistics.mean", "NaN pixels are replaced by nodata before the kernel, for every input (the kernel only tests != nodata)",
+           gap is None, f"the substitution {gap}: NaN pixels of the inputs that skip it are summed and counted" if gap else "", sub if sub is not None else "xx = xx.where(xx.notnull(), xx.nodata)")
+    for txt_ in ("num_zones = len(zone_ids)", "chunks = [xx.data.chunks[0], (num_zones,), (2,)]"):
+        st_ = src.get(txt_)
+        if st_ is not None:
+            users = [s_.call for s_ in sites if any(isinstance(x, ast.Name) and x.id == txt_.split(" =")[0] for x in ast.walk(s_.call))]
+            gap_ = reaches_unconditionally(m, st_, users)
+            rep.ob("R-FORMULA", AFILE, "ZonalStatistics.mean", f"`{txt_.split(' =')[0]}` is defined on every path to the sites that use it", gap_ is None, f"`{txt_}` {gap_}" if gap_ else "", st_)
     rep.ob("R-FORMULA", AFILE, "ZonalStatistics.mean", "dask chunks = (time chunks, (num_zones,), (2,)) agree with the kernel's (t, num_zones, 2)",
            "chunks = [xx.data.chunks[0], (num_zones,), (2,)]" in src, "", "chunks = [xx.data.chunks[0], (num_zones,), (2,)]")
     rep.ob("R-FORMULA", AFILE, "ZonalStatistics.mean", "num_zones = len(zone_ids)", "num_zones = len(zone_ids)" in src, "", "num_zones = len(zone_ids)")
